@@ -58,32 +58,35 @@ var thoroughSets = append(append([]optSet{}, quickSets...), []optSet{
 }...)
 
 type stats struct {
-	Programs       int            `json:"programs"`
-	RejectedByImpl int            `json:"rejected_by_impl"`
-	RejectedSample []string       `json:"rejected_sample,omitempty"`
-	RejectedUnits  int            `json:"units_rejected_under_non_default_options"`
-	Units          int            `json:"units"`
-	Structs        int            `json:"structs"`
-	SynthStructs   int            `json:"synthesized_args_result_structs"`
-	Values         int            `json:"values"`
-	Schema         map[string]int `json:"schema"`
-	CaseKinds      map[string]int `json:"case_kinds"`
-	ReadKinds      map[string]int `json:"read_kinds"`
-	ObsErr         map[string]int `json:"observed_error_classes"`
-	OptionSets     map[string]string `json:"option_sets"`
-	Evaluations    int            `json:"evaluations"`
-	Distinct       int            `json:"distinct_nontrivial"`
-	Rule           string         `json:"rule"`
-	Samples        []interface{}  `json:"samples"`
-	SkippedSIC     int            `json:"vectors_skipped_for_value_type_in_container"`
-	SkippedEnum32  int            `json:"vectors_skipped_for_enum_as_int_32"`
+	Programs            int               `json:"programs"`
+	RejectedByImpl      int               `json:"rejected_by_impl"`
+	RejectedSample      []string          `json:"rejected_sample,omitempty"`
+	RejectedUnits       int               `json:"units_rejected_under_non_default_options"`
+	Units               int               `json:"units"`
+	Structs             int               `json:"structs"`
+	SynthStructs        int               `json:"synthesized_args_result_structs"`
+	Values              int               `json:"values"`
+	Schema              map[string]int    `json:"schema"`
+	CaseKinds           map[string]int    `json:"case_kinds"`
+	ReadKinds           map[string]int    `json:"read_kinds"`
+	ObsErr              map[string]int    `json:"observed_error_classes"`
+	OptionSets          map[string]string `json:"option_sets"`
+	Evaluations         int               `json:"evaluations"`
+	Distinct            int               `json:"distinct_nontrivial"`
+	Rule                string            `json:"rule"`
+	Samples             []interface{}     `json:"samples"`
+	NeighbourVectors    int               `json:"neighbouring_elements_vectors"`
+	ReadVectorsUnderSIC int               `json:"values_read_back_under_value_type_in_container"`
+	SkippedSIC          int               `json:"vectors_skipped_for_value_type_in_container"`
+	SkippedEnum32       int               `json:"vectors_skipped_for_enum_as_int_32"`
 }
 
 type vector struct {
-	S    *schemagen.Struct
-	V    *valgen.Value
-	Edge bool
-	W    *valgen.W // nil when the harness encoder refuses (edge shapes)
+	S     *schemagen.Struct
+	V     *valgen.Value
+	Edge  bool
+	Probe bool      // neighbouring-elements vector: Read is exercised under every option set
+	W     *valgen.W // nil when the harness encoder refuses (edge shapes)
 }
 
 type pending struct {
@@ -323,7 +326,7 @@ func main() {
 	}
 	st := &stats{Schema: map[string]int{}, CaseKinds: map[string]int{}, ReadKinds: map[string]int{}, ObsErr: map[string]int{},
 		OptionSets: map[string]string{},
-		Rule: "a case is non-trivial when its value / input has at least 2 fields or one container; distinct = distinct (struct, option set, value or input bytes)"}
+		Rule:       "a case is non-trivial when its value / input has at least 2 fields or one container; distinct = distinct (struct, option set, value or input bytes)"}
 	for _, o := range sets {
 		st.OptionSets[o.Key] = o.Options
 	}
@@ -333,8 +336,8 @@ func main() {
 	var progs []*schemagen.Program
 	for i := 0; i < nProg; i++ {
 		pp := schemagen.DefaultParams()
-		if i%2 == 1 {
-			pp.StructKeys = false
+		if i%2 == 1 || i == 0 {
+			pp.StructKeys = false // value_type_in_container only compiles without struct-typed map keys
 		}
 		if i%5 == 4 {
 			pp.MaxFiles, pp.MaxStructs, pp.MaxFields = 1, 2, 5
@@ -347,6 +350,8 @@ func main() {
 			pr = rng.New(20260923) // regression corpus: the first program does not depend on VERIF_SEED
 		}
 		p := schemagen.Generate(pr, pp, fmt.Sprintf("p%d", i))
+		// containers of struct-likes whose neighbouring elements set different optional members
+		schemagen.AddProbe(p)
 		// a small service per file: its synthesized <fn>_args / <fn>_result structs are ordinary schemas
 		schemagen.AddServices(r.Fork(), p, schemagen.ServiceParams{MaxServices: 1, MaxFuncs: 2, MaxArgs: 3, MaxThrows: 1, Collide: false, TypeDepth: 2})
 		for _, sv := range p.Services() {
@@ -442,6 +447,22 @@ func main() {
 				vectors[p.Key] = append(vectors[p.Key], vec)
 				st.Values++
 			}
+			if valgen.StructHasStructContainer(s) {
+				np := 1
+				if s.Name == "PrHolder" || *tier == "thorough" {
+					np = 2
+				}
+				for k := 0; k < np; k++ {
+					v := gw.Neighbours(s, 1)
+					vec := &vector{S: s, V: v, Probe: true}
+					if w, err := valgen.ToWire(p, s, v); err == nil {
+						vec.W = w
+					}
+					vectors[p.Key] = append(vectors[p.Key], vec)
+					st.Values++
+					st.NeighbourVectors++
+				}
+			}
 		}
 	}
 
@@ -475,8 +496,11 @@ func main() {
 				continue
 			}
 			add(&pending{kind: "write", prog: pi, unit: u, os: o, vec: vec}, "write", u.Key, s.QName(), vec.V.JSON())
-			if vec.W == nil || vi%o.Reads != 0 {
+			if vec.W == nil || (vi%o.Reads != 0 && !vec.Probe) {
 				continue
+			}
+			if o.SIC {
+				st.ReadVectorsUnderSIC++
 			}
 			rd := func(kind string, w *valgen.W, bs []byte, zero bool, src *valgen.Value) {
 				if w != nil {
@@ -492,9 +516,12 @@ func main() {
 			w := vec.W
 			rd("valid", w, nil, false, vec.V)
 			rd("valid_zero_init", w, nil, true, vec.V)
-			if o.Key != "o0" {
+			if o.Key != "o0" || vec.Probe {
 				if ins := valgen.AllInsertions(rr, s, w); len(ins) > 0 {
 					rd(valgen.PInsertUnknown, ins[rr.Intn(len(ins))], nil, false, vec.V)
+				}
+				if x := valgen.NestedUnknown(rr, p, s, w); x != nil && vec.Probe {
+					rd(valgen.PNestedUnknown, x, nil, false, nil)
 				}
 				continue
 			}
